@@ -25,6 +25,7 @@ type CProg struct {
 	Fields []Var
 	Hists  [][]Call
 	Skip   []bool // histories the C main leaves out (the interpreter ran out of fuel on them)
+	Solo   []bool // histories run only on request (`only` mode): a monitor fired in the interpreter
 }
 
 var cTypes = map[string]string{"u8": "uint8_t", "u16": "uint16_t", "u32": "uint32_t", "u64": "uint64_t",
@@ -98,12 +99,16 @@ func cMainFor(cp *CProg) string {
 		}
 	}
 	fmt.Fprintf(&b, "  printf(\"\\n\"); fflush(stdout);\n}\n")
-	fmt.Fprintf(&b, "static int run_%s(int from) {\n", cp.Pkg)
+	fmt.Fprintf(&b, "static int run_%s(int from, int only) {\n", cp.Pkg)
 	for hi, h := range cp.Hists {
 		if hi < len(cp.Skip) && cp.Skip[hi] {
 			continue
 		}
-		fmt.Fprintf(&b, "  if (from <= %d) {\n    %s f;\n    printf(\"H %d\\n\"); fflush(stdout);\n", hi, pk, hi)
+		cond := fmt.Sprintf("only ? (from == %d) : (from <= %d)", hi, hi)
+		if hi < len(cp.Solo) && cp.Solo[hi] {
+			cond = fmt.Sprintf("only && (from == %d)", hi)
+		}
+		fmt.Fprintf(&b, "  if (%s) {\n    %s f;\n    printf(\"H %d\\n\"); fflush(stdout);\n", cond, pk, hi)
 		fmt.Fprintf(&b, "    if (%s__initialize(&f, sizeof f, WUFFS_VERSION, 0).repr) { printf(\"init-failed\\n\"); return 3; }\n", pk)
 		for _, c := range h {
 			args := []string{"&f"}
@@ -126,7 +131,7 @@ func cMainFor(cp *CProg) string {
 
 // buildBatch writes and compiles one translation unit for the batch.
 // A program whose C does not compile alone is reported in bad (and left out).
-func buildBatch(snapshot, wuffsC, dir, name string, batch []*CProg) (exe string, idx map[string]int, bad map[string]string, err error) {
+func buildBatch(snapshot, baseO, wuffsC, dir, name string, batch []*CProg) (exe string, idx map[string]int, bad map[string]string, err error) {
 	bad = map[string]string{}
 	idx = map[string]int{}
 	bodies := map[string]string{}
@@ -140,7 +145,7 @@ func buildBatch(snapshot, wuffsC, dir, name string, batch []*CProg) (exe string,
 	}
 	write := func(file string, progs []*CProg) {
 		var b strings.Builder
-		b.WriteString("#define WUFFS_IMPLEMENTATION\n#define WUFFS_CONFIG__MODULES\n#define WUFFS_CONFIG__MODULE__BASE__CORE\n")
+		b.WriteString("#define WUFFS_IMPLEMENTATION\n#define WUFFS_CONFIG__MODULES\n")
 		for _, cp := range progs {
 			fmt.Fprintf(&b, "#define WUFFS_CONFIG__MODULE__%s\n", strings.ToUpper(cp.Pkg))
 		}
@@ -150,15 +155,20 @@ func buildBatch(snapshot, wuffsC, dir, name string, batch []*CProg) (exe string,
 			b.WriteString("\n")
 			b.WriteString(cMainFor(cp))
 		}
-		b.WriteString("int main(int argc, char** argv) {\n  if (argc < 3) return 2;\n  int which = atoi(argv[1]), from = atoi(argv[2]);\n  switch (which) {\n")
+		b.WriteString("int main(int argc, char** argv) {\n  if (argc < 4) return 2;\n  int which = atoi(argv[1]), from = atoi(argv[2]), only = atoi(argv[3]);\n  switch (which) {\n")
 		for i, cp := range progs {
-			fmt.Fprintf(&b, "    case %d: return run_%s(from);\n", i, cp.Pkg)
+			fmt.Fprintf(&b, "    case %d: return run_%s(from, only);\n", i, cp.Pkg)
 		}
 		b.WriteString("  }\n  return 2;\n}\n")
 		os.WriteFile(file, []byte(b.String()), 0o644)
 	}
 	compile := func(file, out string) error {
-		return hlib.CC("clang", "-O0", "-g0", "-w", "-fsanitize=address,undefined", "-fno-sanitize-recover=all", "-o", out, file)
+		args := []string{"-O0", "-g0", "-w", "-fsanitize=address,undefined", "-fno-sanitize-recover=all"}
+		if sanRuntimeDir != "" {
+			// dynamic sanitizer runtime: much faster link and process start
+			args = append(args, "-shared-libsan", "-Wl,-rpath,"+sanRuntimeDir)
+		}
+		return hlib.CC("clang", append(args, "-o", out, file, baseO)...)
 	}
 	var good []*CProg
 	for _, cp := range batch {
@@ -238,13 +248,18 @@ func sanitizerClass(stderr string) (cls, msg string) {
 	return "ubsan:other", txt
 }
 
-// runProg runs all histories of program `which` of the batch executable.
-func runProg(exe string, which int, nHist int) []CHistResult {
+// runProg runs the histories of program `which` of the batch executable: one
+// sweep over the histories the interpreter completed (restarted after a trap),
+// and one short run for each history on which a monitor fired.
+func runProg(exe string, which int, nHist int, skip, solo []bool) []CHistResult {
 	res := make([]CHistResult, nHist)
-	from := 0
-	for from < nHist {
-		stdout, stderr, err := hlib.RunCmd(30*time.Second, "", []string{"ASAN_OPTIONS=detect_leaks=0:abort_on_error=0", "UBSAN_OPTIONS=print_stacktrace=0"}, nil,
-			exe, fmt.Sprint(which), fmt.Sprint(from))
+	env := []string{"ASAN_OPTIONS=detect_leaks=0:abort_on_error=0", "UBSAN_OPTIONS=print_stacktrace=0"}
+	run := func(from int, only bool, timeout time.Duration) (last int, failed bool) {
+		o := "0"
+		if only {
+			o = "1"
+		}
+		stdout, stderr, err := hlib.RunCmd(timeout, "", env, nil, exe, fmt.Sprint(which), fmt.Sprint(from), o)
 		cur := -1
 		for _, ln := range strings.Split(string(stdout), "\n") {
 			if strings.HasPrefix(ln, "H ") {
@@ -256,17 +271,76 @@ func runProg(exe string, which int, nHist int) []CHistResult {
 			}
 		}
 		if err == nil {
-			break
+			return cur, false
 		}
 		if cur < 0 {
 			cur = from
 		}
 		cls, msg := sanitizerClass(string(stderr))
 		if strings.Contains(err.Error(), "timeout") {
-			cls, msg = "timeout", "C run did not finish in 30 s"
+			cls, msg = "timeout", fmt.Sprintf("C run did not finish in %v", timeout)
 		}
 		res[cur].Trap, res[cur].Msg = cls, msg
-		from = cur + 1
+		return cur, true
+	}
+	for from := 0; from < nHist; {
+		last, failed := run(from, false, 60*time.Second)
+		if !failed {
+			break
+		}
+		from = last + 1
+	}
+	for hi := 0; hi < nHist; hi++ {
+		if hi < len(solo) && solo[hi] {
+			run(hi, true, 5*time.Second)
+		}
 	}
 	return res
+}
+
+// sanRuntimeDir is where clang keeps libclang_rt.asan-x86_64.so ("" = link statically).
+var sanRuntimeDir string
+
+type cTools struct {
+	wuffsC  string
+	baseC   string
+	baseO   string
+	cleanup func()
+}
+
+// prepareC builds wuffs-c from the working tree and lets it generate the base
+// module (what `wuffs gen` puts first into the snapshot).
+func prepareC(repo string) (*cTools, error) {
+	dir, cleanup := hlib.NewScratchDir("c01tools")
+	if err := hlib.BuildTools(repo, dir, "wuffs-c"); err != nil {
+		cleanup()
+		return nil, err
+	}
+	if o, _, err := hlib.RunCmd(time.Minute, "", nil, nil, "clang", "-print-file-name=libclang_rt.asan-x86_64.so"); err == nil {
+		if p := strings.TrimSpace(string(o)); filepath.IsAbs(p) {
+			if _, err := os.Stat(p); err == nil {
+				sanRuntimeDir = filepath.Dir(p)
+			}
+		}
+	}
+	ct := &cTools{wuffsC: filepath.Join(dir, "wuffs-c"), baseC: filepath.Join(dir, "wuffs-base.c"), cleanup: cleanup}
+	out, stderr, err := hlib.RunCmd(5*time.Minute, "", nil, nil, ct.wuffsC, "gen", "-package_name", "base")
+	if err != nil {
+		cleanup()
+		return nil, fmt.Errorf("wuffs-c gen -package_name base: %v: %s", err, firstLine(string(stderr)))
+	}
+	if err := os.WriteFile(ct.baseC, out, 0o644); err != nil {
+		cleanup()
+		return nil, err
+	}
+	// The base module's core is compiled once (with the sanitizers); each batch
+	// includes the base declarations only and links against this object.
+	core := filepath.Join(dir, "basecore.c")
+	os.WriteFile(core, []byte("#define WUFFS_IMPLEMENTATION\n#define WUFFS_CONFIG__MODULES\n#define WUFFS_CONFIG__MODULE__BASE__CORE\n#include \"wuffs-base.c\"\n"), 0o644)
+	ct.baseO = filepath.Join(dir, "basecore.o")
+	if err := hlib.CC("clang", "-O0", "-g0", "-w", "-fsanitize=address,undefined", "-fno-sanitize-recover=all", "-c", "-o", ct.baseO, core); err != nil {
+		cleanup()
+		return nil, err
+	}
+	return ct, nil
 }
